@@ -9,7 +9,8 @@
    m.parse <json|xml> <enc> <hex bytes> -> DOM <dom> | REJECT | DECODE-ERR   (reference parser only)
    m.doc  <json|xml> <type#> <rootkey|-> <value> -> DOC <ok 0|1> <text, doubles as <bits>>   (the model's document)
 
-   values: n | t | f | i<decimal> | d<16 hex> | s<hex of UTF-8> | [v,..] | {s<hex>:v,..} *)
+   values: n | t | f | i<decimal> | d<16 hex> | s<hex of UTF-8> | [v,..] | {s<hex>:v,..} | o- | o+<v> (optional / smart pointer)
+           | g<16 hex> (float: the bits of the same number as a double) | e<index> (enum) *)
 
 exception Bad of string
 
@@ -53,6 +54,20 @@ let parse_value (s : string) : val0 =
       if !pos - st <> 16 then raise (Bad "double");
       VDbl (n_of_hex (String.sub s st 16))
     | 's' -> incr pos; VStr (hexstr ())
+    | 'g' ->
+      incr pos; let st = !pos in
+      while is_hex (peek ()) do incr pos done;
+      if !pos - st <> 16 then raise (Bad "float");
+      VFlt (n_of_hex (String.sub s st 16))
+    | 'e' ->
+      incr pos; let st = !pos in
+      while peek () >= '0' && peek () <= '9' do incr pos done;
+      VEnum (n_of_dec (String.sub s st (!pos - st)))
+    | 'o' ->
+      incr pos;
+      if peek () = '-' then (incr pos; VOpt None)
+      else if peek () = '+' then (incr pos; VOpt (Some (value ())))
+      else raise (Bad "optional")
     | '[' ->
       incr pos;
       if peek () = ']' then (incr pos; VArr [])
@@ -93,6 +108,10 @@ let rec fmt_value (v : val0) : string =
   | VStr s -> "s" ^ cps_to_utf8_hex s
   | VArr l -> "[" ^ String.concat "," (List.map fmt_value l) ^ "]"
   | VObj m -> "{" ^ String.concat "," (List.map (fun (k, x) -> "s" ^ cps_to_utf8_hex k ^ ":" ^ fmt_value x) m) ^ "}"
+  | VOpt None -> "o-"
+  | VOpt (Some x) -> "o+" ^ fmt_value x
+  | VFlt b -> let h = hex_of_n b in "g" ^ String.make (16 - String.length h) '0' ^ h
+  | VEnum i -> "e" ^ string_of_int (int_of_n i)
 
 (* ------------------------------------------------------------------ encodings *)
 let bom_of = function
@@ -206,6 +225,7 @@ let rec fmt_value_raw (v : val0) : string =
   | VStr s -> "s" ^ raw s
   | VArr l -> "[" ^ String.concat "," (List.map fmt_value_raw l) ^ "]"
   | VObj m -> "{" ^ String.concat "," (List.map (fun (k, x) -> "s" ^ raw k ^ ":" ^ fmt_value_raw x) m) ^ "}"
+  | VOpt (Some x) -> "o+" ^ fmt_value_raw x
   | _ -> fmt_value v
 
 (* a \uXXXX escape of a value >= 0x80 somewhere in the text (then bytes and code points would mix) *)
@@ -232,6 +252,7 @@ let rec value_strings (v : val0) : n list list =
   | VStr s -> [s]
   | VArr l -> List.concat_map value_strings l
   | VObj m -> List.concat_map (fun (_, x) -> value_strings x) m
+  | VOpt (Some x) -> value_strings x
   | _ -> []
 
 let json_load_raw8 (t : ty) (pol : string) (bytes8 : n list) : string =
@@ -345,19 +366,23 @@ module Xmlops = struct
     let f = Int64.float_of_bits (Int64.of_string ("0x" ^ hex_of_n bits)) in
     codes_of_string (Printf.sprintf "%.17g" f)
 
-  (* std::from_chars(double, general) on the text: the longest prefix that is a number ("inf", "nan" included) *)
-  let xstrtod_oracle (text : n list) : n option =
-    let s = string_of_codes text in
+  (* pugixml text().set(float): "%.9g" of the float (given as the double of the same value) *)
+  let dtoa9_oracle (bits : n) : n list =
+    let f = Int64.float_of_bits (Int64.of_string ("0x" ^ hex_of_n bits)) in
+    codes_of_string (Printf.sprintf "%.9g" f)
+
+  (* std::from_chars(double / float, general) on the text: the longest prefix that is a number ("inf", "nan" included).
+     GCC 12 (fast_float): out of range = the result is infinite, or it is zero while the digits are not all zero.
+     Returns (end of the number, is the mantissa zero) or None *)
+  let scan_number (s : string) : (int * bool) option =
     let n = String.length s in
     let digit i = i < n && s.[i] >= '0' && s.[i] <= '9' in
     let rec digits i = if digit i then digits (i + 1) else i in
     let p0 = if n > 0 && s.[0] = '-' then 1 else 0 in
     let lower_at i w = i + String.length w <= n && String.lowercase_ascii (String.sub s i (String.length w)) = w in
-    let fin e = match float_of_string_opt (String.sub s 0 e) with
-      | Some f -> Some (n_of_int64_bits (Int64.bits_of_float f)) | None -> None in
-    if lower_at p0 "infinity" then fin (p0 + 8)
-    else if lower_at p0 "inf" then fin (p0 + 3)
-    else if lower_at p0 "nan" then fin (p0 + 3)
+    if lower_at p0 "infinity" then Some (p0 + 8, false)
+    else if lower_at p0 "inf" then Some (p0 + 3, false)
+    else if lower_at p0 "nan" then Some (p0 + 3, false)
     else begin
       let i1 = digits p0 in
       let (mant_end, has_digits) =
@@ -371,12 +396,37 @@ module Xmlops = struct
             let k = digits j in
             if k > j then k else mant_end
           end else mant_end in
-        (* "1." is accepted by from_chars as 1; OCaml reads it as well *)
-        match float_of_string_opt (String.sub s 0 e) with
-        | Some f -> if Float.abs f = Float.infinity then None else Some (n_of_int64_bits (Int64.bits_of_float f))
-        | None -> None
+        let zero = ref true in
+        for i = p0 to mant_end - 1 do if s.[i] >= '1' && s.[i] <= '9' then zero := false done;
+        Some (e, !zero)
       end
     end
+
+  let named_special (s : string) = String.length s > 0 && (let c = if s.[0] = '-' && String.length s > 1 then s.[1] else s.[0] in c = 'i' || c = 'I' || c = 'n' || c = 'N')
+
+  let xstrtod_oracle (text : n list) : n option option =
+    let s = string_of_codes text in
+    match scan_number s with
+    | None -> None
+    | Some (e, zero) ->
+      (match float_of_string_opt (String.sub s 0 e) with
+       | None -> None
+       | Some f ->
+         if not (named_special s) && (Float.abs f = Float.infinity || (f = 0.0 && not zero)) then Some None
+         else Some (Some (n_of_int64_bits (Int64.bits_of_float f))))
+
+  (* std::from_chars(float): %.9g of a float is read back as that float through the double as well *)
+  let xstrtof_oracle (text : n list) : n option option =
+    let s = string_of_codes text in
+    match scan_number s with
+    | None -> None
+    | Some (e, zero) ->
+      (match float_of_string_opt (String.sub s 0 e) with
+       | None -> None
+       | Some d ->
+         let f = Int32.float_of_bits (Int32.bits_of_float d) in
+         if not (named_special s) && (Float.abs f = Float.infinity || (f = 0.0 && not zero)) then Some None
+         else Some (Some (n_of_int64_bits (Int64.bits_of_float f))))
 
   let key_opt (k : string) : n list option = if k = "-" then None else Some (codes_of_string k)
 
@@ -392,7 +442,7 @@ module Xmlops = struct
     let t = get_type idx in
     let v = parse_value value in
     if not (has_type t v) then "BAD-VALUE" else
-    match save_xml dtoa17_oracle (key_opt rootkey) t v with
+    match save_xml dtoa17_oracle dtoa9_oracle (key_opt rootkey) t v with
     | None -> "UNSUPPORTED"
     | Some ideal ->
       if String.length hex < 2 || String.sub hex 0 2 <> "OK" then
@@ -427,7 +477,7 @@ module Xmlops = struct
     let enc' = if medium = "mem" then "utf8" else enc in
     match decode enc' bytes with
     | None -> "DECODE-ERR"
-    | Some (_, cps) -> fmt_outcome (load_xml_text xstrtod_oracle (opts_of pol) (key_opt rootkey) t cps)
+    | Some (_, cps) -> fmt_outcome (load_xml_text xstrtod_oracle xstrtof_oracle (opts_of pol) (key_opt rootkey) t cps)
 
   let parse enc hex : string =
     let bytes = if hex = "-" then [] else parse_hexbytes hex in
@@ -443,7 +493,7 @@ module Xmlops = struct
     let t = get_type idx in
     let v = parse_value value in
     if not (has_type t v) then "BAD-VALUE" else
-    match save_xml dtoa17_oracle (key_opt rootkey) t v with
+    match save_xml dtoa17_oracle dtoa9_oracle (key_opt rootkey) t v with
     | None -> "UNSUPPORTED"
     | Some d -> "DOC 1 " ^ cps_to_utf8_hex (xml_print_cps d)
 end
